@@ -72,7 +72,13 @@ pub fn gossip_frames(args: &Args) {
     let src = ReplicaId::new(args.get_u64("replica", 9));
     let mut out: Vec<Value> = vec![];
     for i in 0..n {
-        let pad = [0usize, 1, 7, 100, 1400, 3000, 70_000][(i % 7) as usize];
+        // two frames well above a megabyte (JSON renders a byte as three or four characters): a frame is as large as the
+        // update it carries, the listener has to take it like any other
+        let pad = match i {
+            5 => 400_000,
+            12 => 1_300_000,
+            _ => [0usize, 1, 7, 100, 1400, 3000, 70_000][(i % 7) as usize],
+        };
         let key = format!("gk{}", i);
         let value = format!("gv{}{}", i, "x".repeat(pad));
         let d = ReplicationDelta::new(key.clone(), ReplicatedValue::with_value(SDS::from_str(&value), LamportClock { time: 1000 + i, replica_id: src }), src);
